@@ -42,6 +42,7 @@ var kernSubsts = []subst{
 	{"unix", "Poll", "simkern", "Poll"},
 	{"unix", "Close", "simkern", "Close"},
 	{"sync", "Mutex", "simsync", "Mutex"},
+	{"sync", "RWMutex", "simsync", "RWMutex"},
 }
 
 var netSubsts = []subst{
@@ -62,7 +63,7 @@ var unixSubsts = []subst{
 
 var rules = []fileRule{
 	{glob: "core/server/server.go",
-		substs:    []subst{{"sync", "Mutex", "simsync", "Mutex"}},
+		substs:    []subst{{"sync", "Mutex", "simsync", "Mutex"}, {"sync", "RWMutex", "simsync", "RWMutex"}},
 		yieldFns:  []string{"handleRequest", "updateTXTimestamp"},
 		yieldRecv: []string{"tssQueue"},
 		renames:   map[string]string{"tssCap": "tssCapV"}},
@@ -75,7 +76,7 @@ var rules = []fileRule{
 	{glob: "core/sync/sync.go", substs: []subst{{"context", "WithTimeout", "simsync", "WithTimeout"}}},
 	{glob: "driver/clocks/sysclk_linux.go", substs: kernSubsts, yieldRecv: []string{"SystemClock"}},
 	{glob: "net/ntske/provider.go",
-		substs:    []subst{{"sync", "Mutex", "simsync", "Mutex"}},
+		substs:    []subst{{"sync", "Mutex", "simsync", "Mutex"}, {"sync", "RWMutex", "simsync", "RWMutex"}},
 		yieldRecv: []string{"Provider"}},
 }
 
